@@ -52,14 +52,24 @@ def check_c13(tier):
                 fh.write("import pytest\n\n\n@pytest.fixture\ndef pulled_in_fixture():\n    return 1\n")
             trees[tk] = root
         root = trees[tk]
+        via = c.get("via", "direct")
+        if via == "symlink":
+            # the client names the workspace through a symbolic link that lives in a plainly named directory
+            link = os.path.join(base, "links", "l%d" % list(trees).index(tk))
+            os.makedirs(os.path.dirname(link), exist_ok=True)
+            if not os.path.islink(link):
+                os.symlink(root, link)
+            root = link
+        elif via == "dotdot":
+            root = os.path.join(root, "pkg", "..")
         hcases.append({"id": n, "ops": [{"op": "scan", "root": root, "excludes": sorted(c["ex"] or [])},
                                         {"op": "snapshot", "full": True}]})
     results = list(C.run_harness(hcases, threads=4))
     for c, res in zip(cases, results):
         V.count()
-        V.nontriv(json.dumps([c["loc"], sorted(c["ex"] or []), c["fm"]]))
+        V.nontriv(json.dumps([c["loc"], sorted(c["ex"] or []), c["fm"], c.get("via")]))
         snap = res["res"][1]
-        ex = {"root_location": c["loc"], "excludes": sorted(c["ex"] or []), "fault_mode": c["fm"]}
+        ex = {"root_location": c["loc"], "excludes": sorted(c["ex"] or []), "fault_mode": c["fm"], "root_named_by": c.get("via", "direct")}
         if not isinstance(snap, dict) or "defs" not in snap or isinstance(res["res"][0], dict):
             V.violation(dict(ex, result=res["res"]), "workspace scan panicked or failed")
             continue
